@@ -84,6 +84,11 @@ SameTab(a, b) == Len(a) = Len(b) /\ \A i \in 1..Len(a) :
                    a[i].k = b[i].k /\ a[i].t = b[i].t /\ a[i].v = b[i].v /\ a[i].kids = b[i].kids /\ a[i].keys = b[i].keys
 IsNullAt(d, i) == d[i].k = "s" /\ d[i].t = "null"
 LeafIds(d) == {x \in 1..Len(d) : d[x].k = "s"}
+\* An empty document - the loader's None at the root, which is also what a lone `null` / `~` loads to - holds no
+\* data: nothing to delete from it, nothing to add for it (tests/test_commands_yaml_diff.py
+\* test_simple_diff_*_from_nothing_via_stdin / *_into_nothing_via_stdin).  A null anywhere below the root is a value.
+EmptyDoc(d) == Len(d) = 1 /\ IsNullAt(d, 1)
+DocLeafIds(d) == IF EmptyDoc(d) THEN {} ELSE LeafIds(d)
 
 (* ---- data equality ----
    Scalars compare the way Python compares the loaded values (True == 1; a string equals only a string).
@@ -154,7 +159,7 @@ Truthful(e, l, r) ==
   /\ e.a = "SAME" => Eq(Ordered, e.lv, Root, e.rv, Root)
   /\ e.a = "CHANGE" => ~Eq(Ordered, e.lv, Root, e.rv, Root)
 AllTruthful(rep, l, r) == \A k \in 1..Len(rep) : Truthful(rep[k], l, r)
-CoversDoc(rep, d) == \A x \in LeafIds(d) : LET q == PathOf(d, x) IN \E k \in 1..Len(rep) : IsPrefixOf(rep[k].p, q)
+CoversDoc(rep, d) == \A x \in DocLeafIds(d) : LET q == PathOf(d, x) IN \E k \in 1..Len(rep) : IsPrefixOf(rep[k].p, q)
 Covers(rep, l, r) == CoversDoc(rep, l) /\ CoversDoc(rep, r)
 
 \* an element = a leaf (scalar) together with the hash keys on the way to it; list positions are left out,
@@ -167,8 +172,9 @@ Count(s, x) == Cardinality({k \in 1..Len(s) : s[k] = x})
 BagEq(s1, s2) == Len(s1) = Len(s2) /\ \A x \in SeqRange(s1) : Count(s1, x) = Count(s2, x)
 LeftAcc(rep) == Flatten([k \in 1..Len(rep) |-> IF LeftKind(rep[k]) THEN LeafSigsUnder(KeysOnly(rep[k].p), rep[k].lv) ELSE <<>>])
 RightAcc(rep) == Flatten([k \in 1..Len(rep) |-> IF RightKind(rep[k]) THEN LeafSigsUnder(KeysOnly(rep[k].p), rep[k].rv) ELSE <<>>])
-AccountedLeft(rep, l) == BagEq(LeftAcc(rep), LeafSigsUnder(<<>>, l))
-AccountedRight(rep, r) == BagEq(RightAcc(rep), LeafSigsUnder(<<>>, r))
+\* an empty document's null is either spoken of once (null against a scalar: SAME / CHANGE at the root) or not at all
+AccountedLeft(rep, l) == BagEq(LeftAcc(rep), LeafSigsUnder(<<>>, l)) \/ (EmptyDoc(l) /\ LeftAcc(rep) = <<>>)
+AccountedRight(rep, r) == BagEq(RightAcc(rep), LeafSigsUnder(<<>>, r)) \/ (EmptyDoc(r) /\ RightAcc(rep) = <<>>)
 Accounted(rep, l, r) == AccountedLeft(rep, l) /\ AccountedRight(rep, r)
 NoChange(rep) == \A k \in 1..Len(rep) : rep[k].a = "SAME"
 
@@ -328,7 +334,9 @@ Lists(c, acc, p, i, j) ==
 Between(c, acc, p, i, j) ==
   LET a == c.l[i] b == c.r[j] IN
   IF acc.crash THEN acc
-  ELSE IF a.k # b.k THEN AddAll(c, Purge(c, acc, p, i), p, j)
+  ELSE IF a.k # b.k THEN          \* kinds clash: everything left goes, everything right comes - except an empty document
+    LET acc1 == IF Len(p) = 0 /\ IsNullAt(c.l, i) THEN acc ELSE Purge(c, acc, p, i) IN
+    IF Len(p) = 0 /\ IsNullAt(c.r, j) THEN acc1 ELSE AddAll(c, acc1, p, j)
   ELSE IF a.k = "map" THEN Dicts(c, acc, p, i, j)
   ELSE IF a.k = "seq" THEN Lists(c, acc, p, i, j)
   ELSE IF a.k = "set" THEN Sets(c, acc, p, i, j)
